@@ -9,7 +9,7 @@ REQUIRED = ["Sun.get_equinox_solstice", "Sun.equation_of_time", "Sun.apparent_ge
             "Epoch.rise_set", "Epoch.apparent_sidereal_time", "times_rise_transit_set",
             "equatorial2horizontal", "ecliptical2equatorial", "true_obliquity", "nutation_longitude"]
 THEOREMS = ["C14_jde2000", "C14_eot_closed_form", "C14_eot_reduced", "C14_eot_bound", "C14_eot_seconds", "C14_eot_recompose",
-            "C14_season_structure", "C14_season_loop_invariant", "C14_season_longitude", "C14_season_result", "C14_season_year_range", "C14_season_type",
+            "C14_season_structure", "C14_season_loop_invariant", "C14_season_longitude", "C14_season_target_or_antipode", "C14_season_result", "C14_season_year_range", "C14_season_type",
             "C14_season_order", "C14_season_year_length", "C14_season_joint",
             "C14_sunrise_identity", "C14_rise_set_closed_form", "C14_callee_shapes", "C14_rise_set_altitude", "C14_rise_set_order",
             "C14_rise_set_polar", "C14_trts_none", "C14_never_crosses"]
@@ -38,7 +38,7 @@ CLAUSES = {
         "proved [about the polynomials jde0 the iteration starts from (tied to the code by C14_season_structure), NOT about the returned instants; interval: C14_season_order, C14_season_year_length, C14_season_joint]",
     "int years outside -1000..3000 -> ValueError (all four seasons, both sides), float year -> TypeError": "proved [ideal: C14_season_year_range, C14_season_type]",
     "SEASON CLAUSE: at the returned instant the Sun's apparent longitude, as Sun.apparent_geocentric_position itself returns it, is within 2.5e-6 deg (property: 1e-5) of k*90 deg or of its antipode, for every season and int year -1000..3000":
-        "proved modulo termination [ideal: C14_season_longitude, C14_season_result; induction on the loop fuel; the Sun-position premise is DISCHARGED by importing property C08's C08_app.sun_apparent_unconditional (years -2000..6000, 24 files of C07/C08 compiled in this build)]. Remaining: (1) termination - the disjunct OutOfFuel; (2) the antipode k*90+180 is not excluded; (3) premise CtorExact: Epoch(float j) has JDE j on the instants within 290058 days of the mean instant (shape attained in the binary64 instance, C14_callee_shapes; the real-arithmetic calendar round trip is not proved)",
+        "proved modulo termination [ideal: C14_season_longitude, C14_season_target_or_antipode, C14_season_result; induction on the loop fuel; the Sun-position premise is DISCHARGED by importing property C08's C08_app.sun_apparent_unconditional (years -2000..6000, 24 files of C07/C08 compiled in this build)]. Remaining: (1) termination - the disjunct OutOfFuel; (2) the antipode k*90+180 is not excluded; (3) premise CtorExact: Epoch(float j) has JDE j on the instants within 290058 days of the mean instant (shape attained in the binary64 instance, C14_callee_shapes; the real-arithmetic calendar round trip is not proved)",
     "same invariant for an arbitrary abstract Sun model (lam, bet, rad) on a step-closed set of instants":
         "proved as PARTIAL correctness [ideal: C14_season_loop_invariant]; its premises SunModel/StepClosed are instantiated and discharged in C14_season_longitude",
     "termination of the season iteration; exclusion of the antipode; order/spacing (88-95 d, 365.2-365.3 d) of the RETURNED instants": "unproved (searched): needs quantitative rate bounds of the apparent longitude (VSOP + nutation + aberration)",
